@@ -68,9 +68,9 @@ def main():
         "version": 1,
         "setup_cmd": "make -C /verif -j16 setup",
         "hooks": {"guard": "TLX_VERIF",
-                  "enable": "none needed: the concurrency seam is the force-included header sim/shim_std.hpp (namespace shadow tlx::std) and the allocator seam is a template argument; no hook commit exists in /repo",
+                  "enable": "all harness TUs and the tlx .cpp files they link are compiled with -DTLX_VERIF (Makefile COMMON); the only hooks are reach probes TLX_VERIF_PROBE(name) -> extern \"C\" tlx_verif_probe(name), provided by sim/rt.cpp (evidence only: never a scheduling point, never part of an oracle). The concurrency seam needs no hook (force-included header sim/shim_std.hpp), the allocator seam is a template argument.",
                   "baseline_off_cmd": "cmake --build /repo/_build && ctest --test-dir /repo/_build -j8 --timeout 900",
-                  "source_commits": [], "add_only": True},
+                  "source_commits": ["a255775"], "add_only": True},
         "engines": [
             {"name": "sim", "path": "/verif/sim", "serves_properties": sorted(CLAIMED),
              "kind_free_text": "deterministic scheduler over real pthreads (one runnable at a time, futex hand-over, uninstrumented runtime), seeded strategies (random walk, sticky, PCT, round-robin, non-preemptive), fault injection (spurious wake-ups, notify choice, barging, stalls, allocator recycling/poisoning), history/ledger store, replay by explicit decision list"},
